@@ -143,6 +143,7 @@ func checkC10(c *Ctx, r *Result, tier string) {
 
 	// ---- R10c -------------------------------------------------------------------------------------
 	c10Queue(c, r, monIface)
+	c10HeapMapSync(c, r, fIncomplete)
 }
 
 func c10RuleLoop(c *Ctx, r *Result, fn *ssa.Function, fAction, fFail *types.Var) {
@@ -403,4 +404,171 @@ func c10Queue(c *Ctx, r *Result, monIface *types.Interface) {
 	}
 	r.Floor("R10c", nPush, 1)
 	r.Floor("R10c-pop", nPop, 1)
+}
+
+// ---- R10e: the priority heap and the per-priority counters stay in step --------------------------
+
+// The root monitor reports its highest priority from a heap (priorities) whose membership is
+// maintained through the key set of a map (incomplete): a priority is pushed when its key is
+// absent and removed when its counter reaches zero. The report is right only while
+// "p ∈ heap ⇔ p ∈ keys(incomplete)" holds; structurally: every removal from the heap is paired
+// with the deletion of the same key (and vice versa) on every path, every push is made under
+// the absence test of the same key and followed by the insertion of that key on every path.
+func c10HeapMapSync(c *Ctx, r *Result, fIncomplete *types.Var) {
+	fPrio := c.Field("engine", "RootMonitor", "priorities")
+	if fPrio == nil {
+		r.Undecide("R10e: RootMonitor.priorities not found")
+		return
+	}
+	loadsField := func(v ssa.Value, f *types.Var) bool {
+		ld, ok := stripConv(v).(*ssa.UnOp)
+		if !ok || ld.Op != token.MUL {
+			return false
+		}
+		fa, ok := ld.X.(*ssa.FieldAddr)
+		return ok && fieldVar(fa) == f
+	}
+	// every path from `from` to a return passes one of `stops`
+	allPathsPass := func(fn *ssa.Function, from ssa.Instruction, stops map[ssa.Instruction]bool) bool {
+		seenB := map[*ssa.BasicBlock]bool{}
+		var escape func(b *ssa.BasicBlock, i0 int) bool
+		escape = func(b *ssa.BasicBlock, i0 int) bool {
+			for i := i0; i < len(b.Instrs); i++ {
+				if stops[b.Instrs[i]] {
+					return false
+				}
+				if _, isRet := b.Instrs[i].(*ssa.Return); isRet && b != fn.Recover {
+					return true
+				}
+			}
+			for _, s := range b.Succs {
+				if !seenB[s] {
+					seenB[s] = true
+					if escape(s, 0) {
+						return true
+					}
+				}
+			}
+			return false
+		}
+		return !escape(from.Block(), instrIndex(from)+1)
+	}
+	nPairs := 0
+	for _, fn := range c.ModFuncs() {
+		if c.PkgOf(fn) != "engine" {
+			continue
+		}
+		type op struct {
+			in  ssa.Instruction
+			key ssa.Value
+		}
+		var removes, pushes, deletes, inserts []op
+		allInstrs(fn, func(in ssa.Instruction) {
+			switch x := in.(type) {
+			case *ssa.Call:
+				args := callArgs(x.Common())
+				name := callName(x)
+				switch {
+				case isBuiltinCall(x, "delete") && len(args) == 2 && loadsField(args[0], fIncomplete):
+					deletes = append(deletes, op{in, args[1]})
+				case len(args) >= 2 && loadsField(args[0], fPrio) && (strings.HasSuffix(name, ".RemoveFirst") || strings.HasSuffix(name, ".RemoveAll")):
+					removes = append(removes, op{in, args[1]})
+				case name == "container/heap.Push" && len(args) == 2 && loadsField(args[0], fPrio):
+					pushes = append(pushes, op{in, args[1]})
+				case name == "container/heap.Pop" && len(args) == 1 && loadsField(args[0], fPrio):
+					removes = append(removes, op{in, nil})
+				}
+			case *ssa.MapUpdate:
+				if loadsField(x.Map, fIncomplete) {
+					inserts = append(inserts, op{in, x.Key})
+				}
+			}
+		})
+		if len(removes)+len(pushes)+len(deletes) == 0 {
+			continue
+		}
+		key := c.FuncKey(fn)
+		sameKey := func(a, b ssa.Value) bool {
+			if a == nil || b == nil {
+				return false
+			}
+			a, b = stripConv(a), stripConv(b)
+			return a == b || equivValue(a, b, 0)
+		}
+		paired := func(x op, others []op) bool {
+			for _, o := range others {
+				if !sameKey(x.key, o.key) {
+					continue
+				}
+				if dominates(x.in, o.in) && allPathsPass(fn, x.in, map[ssa.Instruction]bool{o.in: true}) {
+					return true
+				}
+				if dominates(o.in, x.in) && allPathsPass(fn, o.in, map[ssa.Instruction]bool{x.in: true}) {
+					return true
+				}
+			}
+			return false
+		}
+		ord := newOrdinals()
+		report := func(kind string, in ssa.Instruction, msg string) {
+			site := ord.key(key, "heap-map", kind)
+			pos := c.Pos(c.InstrPos(in))
+			r.Instance("R10e", site, pos, "finding", msg, true)
+			r.Report(Finding{Rule: "R10e", Site: site, Pos: pos,
+				Msg: key + ": " + msg + " — the heap of active priorities and the key set of the per-priority counters fall out of step, and HighestPriority() omits an activated, unfinished monitor (or reports a finished one)"})
+		}
+		okAll := true
+		for _, x := range removes {
+			nPairs++
+			if !paired(x, deletes) {
+				okAll = false
+				report("remove", x.in, "a priority is removed from the heap without the deletion of the same key from the counter map on every path")
+			}
+		}
+		for _, x := range deletes {
+			nPairs++
+			if !paired(x, removes) {
+				okAll = false
+				report("delete", x.in, "a key is deleted from the counter map without the removal of the same priority from the heap on every path")
+			}
+		}
+		for _, x := range pushes {
+			nPairs++
+			// under the absence test of the same key
+			absent := false
+			for v := range FactsAt(x.in).FalseV {
+				if e, ok := v.(*ssa.Extract); ok && e.Index == 1 {
+					if lk, ok := e.Tuple.(*ssa.Lookup); ok && lk.CommaOk && loadsField(lk.X, fIncomplete) && sameKey(lk.Index, keyOfPush(x.key)) {
+						absent = true
+					}
+				}
+			}
+			stops := map[ssa.Instruction]bool{}
+			for _, ins := range inserts {
+				if sameKey(ins.key, keyOfPush(x.key)) {
+					stops[ins.in] = true
+				}
+			}
+			switch {
+			case !absent:
+				okAll = false
+				report("push", x.in, "a priority is pushed onto the heap on a path where its key is not known to be absent from the counter map (it could be pushed twice, or never again)")
+			case len(stops) == 0 || !allPathsPass(fn, x.in, stops):
+				okAll = false
+				report("push", x.in, "a priority is pushed onto the heap without its key being inserted into the counter map on every path")
+			}
+		}
+		if okAll {
+			r.Instance("R10e", key+"#heap-map", c.Pos(fn.Pos()), "ok", fmt.Sprintf("%d removal(s)/deletion(s) paired on the same key, %d push(es) under the absence test and followed by the insertion", len(removes)+len(deletes), len(pushes)), true)
+		}
+	}
+	r.Floor("R10e", nPairs, 2)
+}
+
+// keyOfPush: heap.Push takes interface{}: the boxed int.
+func keyOfPush(v ssa.Value) ssa.Value {
+	if mi, ok := v.(*ssa.MakeInterface); ok {
+		return mi.X
+	}
+	return v
 }
